@@ -138,17 +138,64 @@ def make_strategy(kind, seed):
     return detsched.RandomStrategy(seed, stay=0.5 + 0.4 * ((seed * 7919) % 10) / 10.0)
 
 
+# spec -> code (L2): action of BufferOp -> (role that performs it, event it logs; None = silent)
+ROLE_EVENT = {
+    'ProdPull': ('prod', 'Pull'), 'ProdSrcEnd': ('prod', 'SrcEnd'), 'ProdSrcRaise': ('prod', 'SrcRaise'),
+    'ProdCheckStop': ('prod', None), 'ProdPut': ('prod', 'Put'), 'ProdPutFin': ('prod', 'Put'),
+    'ProdPutStopped': ('prod', 'Put'), 'ProdPutExc': ('prod', 'Put'),
+    'ConsStart': ('cons', 'Next'), 'ConsNext': ('cons', 'Next'), 'ConsGet': ('cons', 'Get'), 'ConsGetExc': ('cons', 'Get'),
+    'ConsYield': ('cons', 'Yield'), 'ConsBreak': ('cons', 'Break'), 'FinSetStop': ('cons', None),
+    'FinDrainOne': ('cons', 'Get'), 'FinDrainEmpty': ('cons', None), 'FinJoinTimeout': ('cons', None),
+    'FinJoin': ('cons', 'Closed'),
+}
+
+
+def behaviour_to_item(beh):
+    """A TLC behaviour of BufferOp (sync Buffer) -> scenario + steering script."""
+    from mbt.tlc import split_action
+    p = beh[0][1]['p']
+    script, brk = [], None
+    for act, st in beh[1:]:
+        name = split_action(act)[0]
+        if name == 'ConsNeverStarted':
+            return None
+        if name not in ROLE_EVENT:
+            continue
+        role, ev = ROLE_EVENT[name]
+        if name == 'ConsBreak':
+            brk = len(st['out'])
+        script.append({'role': role, 'ev': ev, 'act': name})
+    if brk == 0:
+        return None
+    sc = {'kind': 'sync', 'n': p['n'], 'maxsize': p['maxsize'], 'srcfail': p['srcfail'], 'srcbase': p['srcbase'],
+          'maybreak': p['maybreak'], 'break_at': brk, 'how': 'close'}
+    return {'sc': sc, 'script': script}
+
+
+def _role_of(t):
+    return 'cons' if t.tid == 0 else 'prod'
+
+
 def run_job(job):
     from mbt import detsched
     install_singlelane_wrappers()
     traces, hangs, n_exec = [], [], 0
     for item in job['items']:
         sc, seed, strat = item['sc'], item['seed'], item.get('strategy', 'random')
-        res = detsched.run(_make_scenario(sc), make_strategy(strat, seed), max_steps=60000, stall_timeout=60,
+        guided = None
+        if item.get('script') is not None:
+            guided = detsched.GuidedStrategy(item['script'], _role_of, {}, seed=seed, patience=40)
+            strat = 'guided'
+        res = detsched.run(_make_scenario(sc), guided or make_strategy(strat, seed), max_steps=60000, stall_timeout=60,
                            lag=0.02 if sc['kind'] == 'async' else 0.0, max_idle_vtime=30.0)
         n_exec += 1
         rec = {'id': item['id'], 'p': header(sc), 'ev': strip(res.trace), 'sc': sc, 'seed': seed, 'strategy': strat,
                'status': res.status}
+        if guided is not None:
+            want = [x['ev'] for x in item['script'] if x.get('ev')]
+            got = [e['ev'] for e in rec['ev']]
+            rec['l2'] = {'steps': len(want), 'followed': guided.followed, 'skipped': guided.skipped,
+                         'exact': got[:len(want)] == want}
         if res.status != 'ok' or res.exc is not None:
             rec.update(detail=res.detail, waitmap=res.waitmap, exc=repr(res.exc) if res.exc is not None else None,
                        leftover=res.leftover)
